@@ -246,8 +246,10 @@ def chain_family(depth=2, sizes=(3, 4), limit=None, rng=None):
     combos = []
     for k in sizes:
         combos.extend(itertools.combinations(range(len(alts)), k))
+    # nested selections: one fixed shuffle, the first `limit` combinations
+    (rng or random.Random(20260926)).shuffle(combos)
     if limit is not None and len(combos) > limit:
-        combos = (rng or random.Random(20260926)).sample(combos, limit)
+        combos = combos[:limit]
     for ci, combo in enumerate(combos):
         rules = [("S", alts[i]) for i in combo]
         w = wrappers[ci % 3] if ci % 3 < 2 else None
@@ -264,6 +266,38 @@ def chain_family(depth=2, sizes=(3, 4), limit=None, rng=None):
         if not productive_reachable(rules, list(dict.fromkeys(nts))):
             continue
         yield GSpec(rules, {t: ("str", t) for t in used})
+
+
+def idiom_family():
+    """Common grammar idioms in varying contexts: nullable / non-empty, left / right
+    recursive lists, optionals and separated lists placed after a terminal, after a
+    nonterminal, at the start and at the end of a rule, alone and in pairs."""
+    lists = {
+        "lrec0": [("L", ["L", "x"]), ("L", [])],
+        "rrec0": [("L", ["x", "L"]), ("L", [])],
+        "lrec1": [("L", ["L", "x"]), ("L", ["x"])],
+        "opt": [("L", ["x"]), ("L", [])],
+        "lrecX": [("L", ["L", "X"]), ("L", []), ("X", ["x"])],
+        "sep": [("L", ["L", "c", "x"]), ("L", ["x"]), ("L", [])],
+    }
+    lists2 = {
+        "lrec0": [("M", ["M", "y"]), ("M", [])],
+        "opt": [("M", ["y"]), ("M", [])],
+    }
+    contexts = [
+        (["H", "L", "e"], True, False), (["h", "L", "e"], False, False), (["L", "e"], False, False),
+        (["H", "L"], True, False), (["L"], False, False), (["H", "L", "M", "e"], True, True),
+        (["L", "M"], False, True), (["h", "L", "M"], False, True),
+    ]
+    for lname, lrules in lists.items():
+        for ctx, needs_h, needs_m in contexts:
+            for mname, mrules in (lists2.items() if needs_m else [(None, [])]):
+                rules = [("S", list(ctx))]
+                if needs_h:
+                    rules.append(("H", ["h"]))
+                rules += [(l, list(r)) for l, r in lrules] + [(l, list(r)) for l, r in mrules]
+                used = sorted({x for _, r in rules for x in r if x.islower()})
+                yield GSpec(rules, {t: ("str", t) for t in used})
 
 
 def fixed_stream(n, kind="nullable", seed0=20260925):
